@@ -374,10 +374,13 @@ func c07ChannelScenario(id string, capacity, procs, opsEach int, seed int64) cor
 						i := rec.Begin(p, "offer", v)
 						err := q.PutWithTimeout(v, 300*time.Microsecond)
 						res := resOf(err)
-						if err == fpgo.ErrQueuePutTimeout {
-							res = "full"
-						}
 						rec.End(p, i, 0, res)
+						if err == fpgo.ErrQueuePutTimeout {
+							// a timed Put may give up although there was room at that instant (Go's select picks at random
+							// when the timer and the channel are both ready, e.g. after the goroutine was descheduled): it
+							// is recorded as an operation without effect, not as "full"
+							rec.Retag(p, i, "noop")
+						}
 					case 2:
 						i := rec.Begin(p, "take", 0)
 						v, err := q.Poll()
@@ -386,6 +389,9 @@ func c07ChannelScenario(id string, capacity, procs, opsEach int, seed int64) cor
 						i := rec.Begin(p, "take", 0)
 						v, err := q.TakeWithTimeout(300 * time.Microsecond)
 						rec.End(p, i, v, resOf(err))
+						if err == fpgo.ErrQueueTakeTimeout {
+							rec.Retag(p, i, "noop") // same: a timed Take may time out although an item was there at that instant
+						}
 					}
 					if rng.Intn(3) == 0 {
 						runtime.Gosched()
@@ -439,9 +445,9 @@ func c07Scenarios(c *core.Ctx, race bool) []core.Scenario {
 		}
 	}
 	rng := c.Rng("c07")
-	nShortPer := c.Pick(40, 400)
-	nLongPer := c.Pick(3, 12)
-	longVals := c.Pick(3000, 30000)
+	nShortPer := c.Pick(40, 150)
+	nLongPer := c.Pick(3, 6)
+	longVals := c.Pick(3000, 15000)
 	if race {
 		nShortPer = c.Pick(6, 40)
 		nLongPer = c.Pick(1, 2)
